@@ -374,8 +374,10 @@ func (in *Interp) convert(v Value, from, to types.Type) Value {
 				}
 				if b, ok := el.(*types.Basic); ok && b.Info()&types.IsNumeric != 0 {
 					if w := types.SizesFor("gc", "amd64").Sizeof(b); int(w) != x.obj.cwidth {
-						in.obligation("c-buffer-viewed-with-wrong-element-width", "cwidth", in.ts.False())
-						panic(pathDead{"C buffer reinterpreted with a different element width"})
+						// recorded now, emitted when the path has run to its end: the counterexample then
+						// carries every harness symbol and can be replayed natively (the path goes on with
+						// the flat cell model, which is NOT what the machine does - hence the obligation)
+						in.deferredFacts = appendNote(in.deferredFacts, "c-buffer-viewed-with-wrong-element-width")
 					}
 				}
 			}
